@@ -7,6 +7,7 @@
   counter, see DESIGN.md §6 and known_findings.json).
 -/
 import SuironVerif.Lemmas.Frame
+import SuironVerif.Lemmas.GInv
 namespace Suiron.C22
 
 /-- what `make_query` + `make_base_node` leave in the globals the engine reads: the counter depends
@@ -63,6 +64,71 @@ theorem first_request_independent (fo : FloatOps) (kb : KB) (f : Nat) (q : Goal)
     | fail => rw [hnb] at hs1; simp [Res.mapStep] at hs1
     | panic => rw [hnb] at hs1; simp [Res.mapStep] at hs1
     | oof => rw [hnb] at hs1; simp [Res.mapStep] at hs1
+  | fail => rw [hmb] at hm1; simp at hm1
+  | panic => rw [hmb] at hm1; simp at hm1
+  | oof => rw [hmb] at hm1; simp at hm1
+
+/-- a whole run: the answers of a sequence of requests (one fuel value each), each with the text written
+    during that request -/
+def runSeq (fo : FloatOps) (kb : KB) : List Nat → Node → G → List (Option Subst × List String)
+  | [], _, _ => []
+  | f :: fs, node, g =>
+    match next fo kb f node g with
+    | .ok st => (st.sol, st.g.out.take (st.g.out.length - g.out.length)) :: runSeq fo kb fs st.node st.g
+    | _ => []
+
+/-- the engine only ever appends to the output -/
+theorem out_grows (fo : FloatOps) (kb : KB) (f : Nat) (n : Node) (g : G) (st : Step)
+    (h : next fo kb f n g = .ok st) : g.out.length ≤ st.g.out.length := by
+  have hP : GStable kb (fun g' => g.out.length ≤ g'.out.length) := by
+    refine ⟨?_, ?_, ?_⟩
+    · intro g' s hg; unfold G.emit; split
+      · exact hg
+      · simp; omega
+    · intro g' c hg; exact hg
+    · intro g' key hg; unfold countRules; simp only; split
+      · exact hg
+      · split <;> exact hg
+  exact (ginv_all fo kb _ hP f).1 n g st h (Nat.le_refl _)
+
+/-- whole runs ignore the text written by earlier queries -/
+theorem run_ignores_history (fo : FloatOps) (kb : KB) : ∀ (fs : List Nat) (n : Node) (g : G) (old : List String),
+    runSeq fo kb fs n (g.withOld old) = runSeq fo kb fs n g := by
+  intro fs
+  induction fs with
+  | nil => intros; rfl
+  | cons f fs ih =>
+    intro n g old
+    simp only [runSeq, request_ignores_history]
+    cases hn : next fo kb f n g with
+    | ok st =>
+      simp only [Res.mapStep, Step.withOld]
+      rw [ih]
+      congr 1
+      simp only [G.withOld, List.length_append]
+      have hmono : g.out.length ≤ st.g.out.length := out_grows fo kb f n g st hn
+      have e : st.g.out.length + old.length - (g.out.length + old.length) = st.g.out.length - g.out.length := by omega
+      rw [e, List.take_append_of_le_length (by omega)]
+    | fail => simp [Res.mapStep]
+    | panic => simp [Res.mapStep]
+    | oof => simp [Res.mapStep]
+
+/-- C22 for whole runs: the same query built in two different histories gives, request after request, the
+    same answers and writes the same text — for any number of requests, re-asks after exhaustion included. -/
+theorem C22 (fo : FloatOps) (kb : KB) (q : Goal) (g1 g2 : G) (c : Nat)
+    (ht : g1.ticks = g2.ticks) (hf : g1.fireAt = g2.fireAt)
+    (n1 : Node) (h1 : G) (hm1 : mkNode fo.showF kb q [] (afterBuild g1 c) = .ok (n1, h1)) (fs : List Nat) :
+    ∃ h2 : G, mkNode fo.showF kb q [] (afterBuild g2 c) = .ok (n1, h2) ∧ runSeq fo kb fs n1 h2 = runSeq fo kb fs n1 h1 := by
+  obtain ⟨base, hb1, hb2⟩ := build_forgets_history g1 g2 c ht hf
+  rw [hb1, mkNode_withOld] at hm1
+  cases hmb : mkNode fo.showF kb q [] base with
+  | ok r =>
+    rw [hmb] at hm1; simp at hm1
+    obtain ⟨hn, hh⟩ := hm1
+    subst hn
+    refine ⟨r.2.withOld g2.out, ?_, ?_⟩
+    · rw [hb2, mkNode_withOld, hmb]
+    · rw [← hh, run_ignores_history, run_ignores_history]
   | fail => rw [hmb] at hm1; simp at hm1
   | panic => rw [hmb] at hm1; simp at hm1
   | oof => rw [hmb] at hm1; simp at hm1
